@@ -151,10 +151,10 @@ impl FrameSymbolizer for RecInl {
 
 /// M: 16
 /// F: breakpad_symbols::SymbolFile::fill_symbol (source line, inline-frame emission and its location shift), Function::{get_outermost_sourceloc, get_inlinee_at_depth, get_innermost_sourceloc}
-/// I: one FUNC with one line record (file id 1 or 2, any line number) and two inlinee records (depth 0 and depth 1; address, size, call file 1 or 2, call line symbolic); the instruction anywhere in the function
+/// I: one FUNC with one line record covering a symbolic-length prefix of it (file id 1 or 2, any line number) and two inlinee records (depth 0 and depth 1; address, size, call file 1 or 2, call line symbolic); the instruction anywhere in the function
 /// B: 1 FUNC, 1 line record, inline depth <= 2
 /// A: `HashMap::get` replaced by an oracle for the two name tables (file 1 = "f.c", file 2 unknown; inline origins 7 = "a", 8 = "b") - the hash maps themselves stay empty; HashMap::new's random keys replaced by constants; module base 0 (base arithmetic is decided by the other fill_symbol harnesses)
-/// O: the function is reported once; the source file is reported iff the outermost location's file id is known, with the call site of the depth-0 inline if one covers the address, else the line record; inline frames are emitted whether or not that file is known: none without a depth-0 inline; with inlines, each inline is reported with the location of the call made *inside* it and the innermost one with the line record's location (line 0 reported as unknown)
+/// O: the function is reported once; the source file is reported iff the outermost location's file id is known, with the call site of the depth-0 inline if one covers the address, else the line record; inline frames are emitted whether or not that file is known: none without a depth-0 inline; with inlines, each inline is reported with the location of the call made *inside* it and the innermost one with the line record's location (line 0 reported as unknown; no covering line record: the frame is still emitted, with unknown file and line)
 #[kani::proof]
 #[kani::unwind(6)]
 #[kani::stub(std::hash::RandomState::new, fixed_random_state)]
@@ -168,7 +168,10 @@ fn c11_q_fill_symbol_lines_and_inlines() {
     let lf: u32 = kani::any();
     let ll: u32 = kani::any();
     kani::assume(lf == 1 || lf == 2);
-    let lines = RangeMap::try_from_iter(vec![(Range::new(0x100u64, 0x1ffu64), SourceLine { address: 0x100, size: 0x100, file: lf, line: ll })]).unwrap();
+    // the line record covers [0x100, 0x100 + ls): possibly only the start of the function
+    let ls: u32 = kani::any();
+    kani::assume(ls >= 1 && ls <= 0x100);
+    let lines = RangeMap::try_from_iter(vec![(Range::new(0x100u64, 0xffu64 + ls as u64), SourceLine { address: 0x100, size: ls, file: lf, line: ll })]).unwrap();
     // up to two inlinee records: depth 0 (origin 7) and depth 1 (origin 8), symbolic ranges
     let (a0, s0, cf0, cl0): (u64, u32, u32, u32) = (kani::any(), kani::any(), kani::any(), kani::any());
     let (a1, s1, cf1, cl1): (u64, u32, u32, u32) = (kani::any(), kani::any(), kani::any(), kani::any());
@@ -211,24 +214,27 @@ fn c11_q_fill_symbol_lines_and_inlines() {
     assert!(fr.func == 1);
     let d0 = a0 <= addr && addr - a0 < s0 as u64;
     let d1 = a1 <= addr && addr - a1 < s1 as u64;
+    let lined = addr - 0x100 < ls as u64;
     let file = |id: u32| if id == 1 { pf } else { 0 };
-    // outermost location: the call site of the depth-0 inline if there is one, else the line record
-    let (of, ol, oa) = if d0 { (cf0, cl0, a0) } else { (lf, ll, 0x100) };
-    if of == 1 {
-        assert!(fr.nsrc == 1 && fr.src == Some((pf, ol, oa)));
-    } else {
-        assert!(fr.nsrc == 0);
+    // outermost location: the call site of the depth-0 inline if there is one, else the line record (if it covers the address)
+    let outer = if d0 { Some((cf0, cl0, a0)) } else if lined { Some((lf, ll, 0x100)) } else { None };
+    match outer {
+        Some((of, ol, oa)) if of == 1 => assert!(fr.nsrc == 1 && fr.src == Some((pf, ol, oa))),
+        _ => assert!(fr.nsrc == 0),
     }
-    let innermost_line = if ll != 0 { Some(ll) } else { None };
+    // innermost location: the line record's, or unknown when no line record covers the address
+    let (inner_file, inner_line) = if lined { (file(lf), if ll != 0 { Some(ll) } else { None }) } else { (0, None) };
     if !d0 {
         assert!(fr.ninl == 0);
     } else if !d1 {
-        // one inline: it is reported with the innermost (line-record) location
-        assert!(fr.ninl == 1 && fr.inl[0] == (pa, file(lf), innermost_line));
+        // one inline: it is reported with the innermost location (even when that is unknown)
+        assert!(fr.ninl == 1 && fr.inl[0] == (pa, inner_file, inner_line));
     } else {
         // two inlines: each is reported with the location of the call *inside* it
-        assert!(fr.ninl == 2 && fr.inl[0] == (pa, file(cf1), Some(cl1)) && fr.inl[1] == (pb, file(lf), innermost_line));
+        assert!(fr.ninl == 2 && fr.inl[0] == (pa, file(cf1), Some(cl1)) && fr.inl[1] == (pb, inner_file, inner_line));
     }
+    let of = outer.map_or(0, |o| o.0);
+    kani::cover!(d0 && !lined, "an inline at an address without a line record");
     kani::cover!(d0 && d1 && of == 2, "two inlines although the outermost file is unknown");
     std::mem::forget(sf);
     std::mem::forget(module);
